@@ -100,6 +100,9 @@ func c12List(n int, tag string) ipld.Node {
 	return nd
 }
 
+// c12Chars: the characters of the string built by the last c12Data call.
+var c12Chars []string
+
 // c12Data: one of the data shapes, leaves symbolic.
 func c12Data(maxLen int) ipld.Node {
 	switch vChoose("kind", 6) {
@@ -120,9 +123,24 @@ func c12Data(maxLen int) ipld.Node {
 	case 2:
 		return basicnode.NewBytes(vBytes("bytes", vChoose("len", maxLen+1)))
 	case 3:
-		s := vString("str", vChoose("len", maxLen+1))
-		for i := 0; i < len(s); i++ {
-			vAssume(s[i] < 0x80)
+		// a string of 0..maxLen characters, each a symbolic ASCII byte or (CHARS>1)
+		// a 2-byte / 3-byte character: slicing is by character, not by byte
+		n := vChoose("len", maxLen+1)
+		c12Chars = nil
+		s := ""
+		for i := 0; i < n; i++ {
+			var ch string
+			switch vChoose("ch"+string(rune('0'+i)), vParam("CHARS")) {
+			case 0:
+				ch = vString("str"+string(rune('0'+i)), 1)
+				vAssume(ch[0] < 0x80)
+			case 1:
+				ch = "\u00e9"
+			default:
+				ch = "\u20ac"
+			}
+			c12Chars = append(c12Chars, ch)
+			s += ch
 		}
 		return basicnode.NewString(s)
 	case 4:
@@ -286,13 +304,13 @@ func c12RefSingle(seg segment, fieldChoice int, d ipld.Node) (ipld.Node, int) {
 			}
 			return basicnode.NewBytes(bs[a:b]), c12Val
 		case datamodel.Kind_String:
-			str, _ := d.AsString()
-			a, b := c12PyIndices(absS, s, absE, e, int64(len(str))) // ASCII: characters = bytes
+			a, b := c12PyIndices(absS, s, absE, e, int64(len(c12Chars))) // by character
 			a, b = vConcI64(a), vConcI64(b)
-			if a >= b {
-				return basicnode.NewString(""), c12Val
+			out := ""
+			for i := a; i < b; i++ {
+				out += c12Chars[i]
 			}
-			return basicnode.NewString(str[a:b]), c12Val
+			return basicnode.NewString(out), c12Val
 		}
 		return nil, c12Error
 	}
